@@ -508,7 +508,7 @@ where
                 // we are opening an existing file
                 Some(entry)
             }
-            Err(_)
+            Err(Error::NotFound)
                 if (mode == Mode::ReadWriteCreate)
                     | (mode == Mode::ReadWriteCreateOrTruncate)
                     | (mode == Mode::ReadWriteCreateOrAppend) =>
@@ -517,9 +517,10 @@ where
                 // asked us to create it
                 None
             }
-            _ => {
-                // We are opening a non-existant file, and that's not OK.
-                return Err(Error::NotFound);
+            Err(e) => {
+                // Either we are opening a non-existant file, and that's not OK,
+                // or we could not search the directory at all.
+                return Err(e);
             }
         };
 
